@@ -236,6 +236,22 @@ def judge_c06(prop, spec_name, ch, case, which, res):
                 out["v"].append(W.mk_violation(prop, spec_name, ch, case, which, mode, "box-in-derivative", "tracer object in result", None))
         elif r is not None:
             counts["raised-" + mode] += 1
+    nest = res.get("nest") or {}
+    for key, val in nest.items():
+        if isinstance(val, tuple) and len(val) == 3 and isinstance(val[0], str) and val[0] == "EXC":
+            counts["raised-" + key] += 1          # unsupported under (nested) differentiation: loud, not C06's subject
+            continue
+        if key == "value_and_grad":
+            try:
+                want = float(onp.sum(onp.real(onp.asarray(ref) * 1.0)))
+            except Exception:
+                continue
+            if W._has_box(val, A) or not (onp.ndim(val) == 0 and (abs(float(val) - want) <= 1e-12 * (1 + abs(want)) or (want != want and float(val) != float(val)))):
+                out["v"].append(W.mk_violation(prop, spec_name, ch, case, which, key, "primal-differs", repr(val)[:200], want))
+            else:
+                counts["same-" + key] += 1
+            continue
+        obs[key] = val
     for where, val in obs.items():
         if isinstance(val, tuple) and len(val) == 3 and isinstance(val[0], str) and val[0] == "EXC":
             counts["plain-call-raises"] += 1
@@ -261,7 +277,7 @@ def judge_c06(prop, spec_name, ch, case, which, res):
 # ----------------------------------------------------------------- driver
 
 JUDGES = dict(C01=(("num", "rev"), judge_c01), C02=(("num", "fwd"), judge_c02), C04=(("rev", "fwd"), judge_c04),
-              C05=(("rev", "fwd"), judge_c05), C06=(("plain", "rev", "fwd"), judge_c06))
+              C05=(("rev", "fwd"), judge_c05), C06=(("plain", "rev", "fwd", "nest"), judge_c06))
 
 
 def harness_table(prop, cplx=False, families=None, reduced=False):
